@@ -500,6 +500,12 @@ impl Corpus {
         "class Money(val units: int, val cents: int) {{\n  method plus(o: Money): int = this.units * o.units + this.cents * o.cents\n}}\n\nclass Transfer(val src: Money, val dst: Money) {{\n  method compound(n: int): int = if n <= 0 {{ this.src.plus(this.dst) }} else {{ this.compound(n - 1) + this.dst.units - this.src.cents + {} }}\n}}\n\nclass Ledger(val last: Transfer, val count: int) {{\n  method replay(n: int): Ledger = if n <= 0 {{ this }} else {{ Ledger.init(Transfer.init(this.last.dst, this.last.src), this.count + 1).replay(n - 1) }}\n  method show(): Str = Str.fromInt(this.last.compound(3)) :: \"/\" :: Str.fromInt(this.count)\n}}\n\n",
         k + 1
       );
+      // on half of the programs only one side has a holder and a surviving recursive method
+      let a = if rng.chance(1, 2) {
+        a
+      } else {
+        "class Vec2(val x: int, val y: int) {\n  method dot(o: Vec2): int = this.x * o.x + this.y * o.y\n}\n\nclass Segment(val start: Vec2, val end: Vec2) {\n  method span(n: int): int = this.start.dot(this.end) + n\n}\n\nclass Path(val hops: int) {\n  method extend(n: int): Path = Path.init(this.hops + n)\n  method show(): Str = Str.fromInt(Segment.init(Vec2.init(this.hops, 1), Vec2.init(2, 3)).span(3)) :: \"/\" :: Str.fromInt(this.hops)\n}\n\n".to_string()
+      };
       sources.get_mut(&mod_names[ta]).unwrap().push_str(&a);
       sources.get_mut(&mod_names[tb]).unwrap().push_str(&b);
     }
@@ -541,7 +547,11 @@ impl Corpus {
       t.push_str(&format!("    SameShape{mi}.run();\n"));
     }
     if twins {
-      t.push_str(&format!("    Process.println(Path.init(Segment.init(Vec2.init(1, 2), Vec2.init(3, 4)), 0{}).extend(3).show());\n", if sources[&mod_names[ta]].contains("val note: Str") { ", \"n\"" } else { "" }));
+      if sources[&mod_names[ta]].contains("class Path(val hops: int)") {
+        t.push_str("    Process.println(Path.init(0).extend(3).show());\n");
+      } else {
+        t.push_str(&format!("    Process.println(Path.init(Segment.init(Vec2.init(1, 2), Vec2.init(3, 4)), 0{}).extend(3).show());\n", if sources[&mod_names[ta]].contains("val note: Str") { ", \"n\"" } else { "" }));
+      }
       t.push_str("    Process.println(Ledger.init(Transfer.init(Money.init(5, 6), Money.init(7, 8)), 0).replay(4).show());\n");
     }
     if ra != rb {
